@@ -261,8 +261,10 @@ Definition run_case (c : case) : Z :=
 Definition run_cases (cs : list case) : list Z := map run_case cs.
 
 (* constructors used by the harness (all numerals are written as Z / positive literals) *)
-Definition q (n : Z) (d : positive) : Q := Qmake n d.
-Definition cn (i k n : Z) (d : positive) : cand := (Z.to_nat i, Z.to_nat k, Qmake n d).
+(* m * 2^e: a double, written with short literals (big decimal literals are slow to parse) *)
+Definition q (m e : Z) : Q :=
+  if (0 <=? e)%Z then Qmake (m * 2 ^ e) 1 else Qmake m (Z.to_pos (2 ^ (- e))).
+Definition cn (i k m e : Z) : cand := (Z.to_nat i, Z.to_nat k, q m e).
 Definition nl (l : list Z) : list nat := map Z.to_nat l.
 Definition mkrec (nRa : list Z) (bounds : list (option bnd)) (cells : list cell) (perm : list Z)
            (chl : list (cell * list Z)) : recorded :=
